@@ -6,6 +6,7 @@ import pathlib
 from vf import core
 from vf.core import cbool, clist, cn, copt, cz, ctup
 from vf.translate import core as T
+from vf import grouppass
 from vf.harness import histories, itemrun as ir, itemworld as iw
 from vf.harness import world as w
 
@@ -53,6 +54,10 @@ def proofs(ctx):
         files = None
     if files:
         core.check_tie(ctx, files, ["Tie_C05"])
+    try:
+        grouppass.pin()
+    except T.Untranslatable as e:
+        ctx.broke("translator", "UpdateableGroup.update / update_pull", str(e))
     core.check_property_file(ctx, "C05.v")
 
 
@@ -445,6 +450,7 @@ def explore(ctx):
     explore_items(ctx, base, 60 if q else 2500)
     explore_histories(ctx, base, 40 if q else 1500)
     explore_hsm(ctx, base)
+    grouppass.explore(ctx, 80 if q else 2000)
 
 
 def search(ctx):
